@@ -348,6 +348,12 @@ func (fr *Frame) execBinOp(st *State, x *ssa.BinOp) *Val {
 		} else if cst, ok := x.X.(*ssa.Const); ok && cst.Value == nil && b.K == VIface {
 			r = Eq(b.Tag, Num(0))
 		} else if a.K == VIface && b.K == VIface {
+			// comparing two interface values panics when both hold the same non-comparable dynamic
+			// type (slices, maps, functions). Obligation unless no implementer of the static
+			// interface type is non-comparable; error values are assumed comparable.
+			if fr.contract != nil && !fr.contract.NoSafety && fr.c.dry == 0 && ifaceMayHoldUncomparable(fr.c.eng, x.X.Type()) && ifaceMayHoldUncomparable(fr.c.eng, x.Y.Type()) {
+				fr.checkSafe(st, x, "ifacecmp", Or(Neq(a.Tag, b.Tag), Eq(a.Tag, Num(0)), App("comparable", SBool, a.Tag)))
+			}
 			r = And(Eq(a.Tag, b.Tag), Eq(a.Box, b.Box))
 		} else if a.K == VSlice || b.K == VSlice {
 			// comparison with nil only
@@ -866,4 +872,46 @@ func (fr *Frame) zeroGhost(st *State, r *Term) {
 			h.storeGhost(r, gf, False)
 		}
 	}
+}
+
+var uncomparableCache = map[string]bool{}
+
+// ifaceMayHoldUncomparable: some named type of the loaded program that implements the interface
+// type t (by value or by pointer) is not comparable. The error interface is exempt (assumption:
+// error values are comparable).
+func ifaceMayHoldUncomparable(e *Engine, t types.Type) bool {
+	it, ok := t.Underlying().(*types.Interface)
+	if !ok {
+		return false
+	}
+	k := typeKey(t)
+	if k == "error" {
+		return false
+	}
+	if v, ok := uncomparableCache[k]; ok {
+		return v
+	}
+	res := false
+	if it.NumMethods() == 0 {
+		res = true // any: everything implements it
+	} else {
+		for _, p := range e.prog.AllPackages() {
+			sc := p.Pkg.Scope()
+			for _, n := range sc.Names() {
+				tn, ok := sc.Lookup(n).(*types.TypeName)
+				if !ok || tn.IsAlias() {
+					continue
+				}
+				T := tn.Type()
+				if _, isIface := T.Underlying().(*types.Interface); isIface {
+					continue
+				}
+				if types.Implements(T, it) && !types.Comparable(T) {
+					res = true
+				}
+			}
+		}
+	}
+	uncomparableCache[k] = res
+	return res
 }
